@@ -71,6 +71,11 @@ class Lang:
                         items.append(g4.Lit(v))
                 elif kind == "alt":
                     items.append(g4.Alt([g4.Seq(items_of(a)) for a in v], [None] * len(v), [None] * len(v)))
+                elif kind == "rep":
+                    # ('rep', element pieces, separator pieces): element (separator element)*
+                    elt, sep = items_of(v), items_of(p_[2])
+                    items.append(g4.Alt([g4.Seq(elt)], [None], [None]))
+                    items.append(g4.Rep(g4.Alt([g4.Seq(sep + elt)], [None], [None]), "*"))
                 else:
                     items.append(g4.Ref(v))
             return items
